@@ -15,6 +15,9 @@ def run(tier, corrupt=0):
     vlib.build_harness()
     common.mc_phase(c, "MC_Iterator", cfg="MC_Iterator_bound_quick" if tier == "quick" else "MC_Iterator_bound",
                     workers=vlib.NCPU, timeout=3600, heap="12g")
+    nv = vlib.tlc_expect_violation("MC_Iterator", cfg="MC_Iterator_bound_nv", workers=4)
+    c.setv("nonvacuity", "MC_Iterator_bound_nv (the iterator goes on after an interval considered infinite, as the pinned tree did): "
+                         "TLC refutes BoundPartition (%s)" % ",".join(nv.invariant_violated))
     n, procs, shards = (1000, 16, 12) if tier == "quick" else (30000, 16, 16)
     lines = iter_common.record_parallel(c, "bounded", n, procs, corrupt=corrupt,
                                        extra=["--work-budget", 6_000_000 if tier == "quick" else 400_000_000])
